@@ -1,5 +1,6 @@
 import NrDaemon.Model.Limiter
 import NrDaemon.Gen.Limits
+import NrDaemon.Gen.Skeleton
 /-!
   C18 — outbound requests are limited without leaking capacity.
 -/
@@ -83,3 +84,23 @@ theorem C18_timeout_enabled (s : LState) (i : Nat) (h : s.waiting.contains i = t
 
 /-- the configured maximum and the time-out (regenerated from limits.go) -/
 theorem C18_constants : Gen.Limits.MaxOutboundConns = 100 ∧ Gen.Limits.HarvestTimeout = 45000000000 := by decide
+
+/-- `limitClient.Execute` as it is in client.go today: take a token or time out; the token goes back in a deferred call (so
+also when the inner client panics) and only on the path that took one — the transitions `acquire` / `finish` / `panic` /
+`timeout` of the limiter machine -/
+def reviewedLimitExecute : List String := [
+  "if 0!=l.timeout {",
+  "timer = time.After(…)",
+  "}",
+  "select {",
+  "case <-l.semaphore:",
+  "defer func(){l.semaphore <- true}()",
+  "resp := l.orig.Execute(…)",
+  "return resp",
+  "case <-timer:",
+  "return NewRPMResponseError(…)",
+  "}"
+]
+
+/-- **C18 (tie: the limiter machine transcribes the code).** -/
+theorem C18_execute_source_tied : Gen.Skeleton.limitExecute = reviewedLimitExecute := rfl
